@@ -447,6 +447,7 @@ func runC11(cfg config) {
 		return fmt.Sprint(out)
 	}
 	space := func(int, c11Tok, c11Tok) string { return " " }
+	var rendered []string
 	for n := 0; n < nTrees; n++ {
 		depth := 2 + r.intn(3)
 		if n%10 == 0 {
@@ -536,6 +537,10 @@ func runC11(cfg config) {
 			key = smin
 		}
 		sink.add(coq, fmt.Sprintf("min: %s   full: %s   [min compiles=%v full compiles=%v]", smin, sfull, okmin, okfull), kind, key)
+		if n%5 == 0 {
+			rendered = append(rendered, c11Text(tmin, func(int, c11Tok, c11Tok) string { return pick(r, c11LexSeps) }))
+		}
 	}
+	runC11Lex(cfg, sink, r, rendered)
 	sink.finish("seeded expression trees up to depth 6 over all 13 precedence levels (invocation, indexer, polarity, multiplicative, additive incl. &, type, union, inequality, equality, membership, and, or/xor, implies), function arguments and parenthesised sub-terms; each printed with minimal and with full parentheses, compiled, its node tree read back (DumpExpr) and compared; six whitespace/comment decorations of the minimal text; five trailing-token extensions; evaluation of both renderings on a sample input; non-trivial = distinct texts that compile", false)
 }
